@@ -137,7 +137,7 @@ class Ctx:
 
     def fresh(self, base="t"):
         self.tmp += 1
-        return f"{base}__{self.tmp}"
+        return f"{base}mp{self.tmp}"
 
 
 def is_name(n, s):
@@ -533,7 +533,7 @@ class FnTranslator:
             if isinstance(s.target, ast.Subscript) and self.is_list(s.target.value):
                 base = self.expr(s.target.value, binds)
                 idx = self.expr(s.target.slice, binds)
-                upd = f"(match py_get {base} {idx} with Some v__ => py_set {base} {idx} (v__ {op} {val}) | None => {base} end)"
+                upd = f"(match py_get {base} {idx} with Some vR => py_set {base} {idx} (vR {op} {val}) | None => {base} end)"
                 return self.wrap_binds(binds, f"(let {base} := {upd} in {self.block(rest, k)})")
             raise Untranslatable(s, "augmented assignment target")
         if isinstance(s, ast.Return):
@@ -641,7 +641,7 @@ class FnTranslator:
         c = self.cond(s.test, binds)
         if binds:
             raise Untranslatable(s, "effectful call in loop condition")
-        cont = lambda: f"({lname} fuel__ " + " ".join(carried) + ")"
+        cont = lambda: f"({lname} fuelR " + " ".join(carried) + ")"
         saved = set(self.scope)
         body = self.block(list(s.body), ("loop", cont))
         self.scope = set(saved)
@@ -649,7 +649,7 @@ class FnTranslator:
         self.scope = saved
         params = " ".join(carried)
         return (f"((fix {lname} (fuel_ : nat) {params} {{struct fuel_}} : {self.coq_rettype()} :=\n"
-                f"   match fuel_ with\n   | O => Raise OutOfFuel\n   | S fuel__ =>\n"
+                f"   match fuel_ with\n   | O => Raise OutOfFuel\n   | S fuelR =>\n"
                 f"     if {c} then {body}\n     else {after}\n   end) ({fuel}) {params})")
 
     def loop_for(self, s, rest, k):
@@ -665,7 +665,7 @@ class FnTranslator:
             if not isinstance(X, ast.Name):
                 raise Untranslatable(s, "range(len(...)) over a non-variable")
             iv, xn = s.target.id, X.id
-            elem = f"{xn}__item"
+            elem = f"{xn}_item"
 
             class R(ast.NodeTransformer):
                 def visit_Subscript(self_, n):
@@ -684,7 +684,7 @@ class FnTranslator:
         lst = self.expr(it, binds)
         carried = [ident(v) for v in self.assigned_names(body) if ident(v) in self.scope]
         params = " ".join(carried)
-        cont = lambda: f"({lname} tl__ " + " ".join(carried) + ")"
+        cont = lambda: f"({lname} tlR " + " ".join(carried) + ")"
         saved = set(self.scope)
         for n_ in ast.walk(s.target):
             if isinstance(n_, ast.Name):
@@ -694,8 +694,8 @@ class FnTranslator:
         after = self.block(rest, k)
         self.scope = saved
         return self.wrap_binds(binds,
-                               f"((fix {lname} (xs__ : list _) {params} {{struct xs__}} : {self.coq_rettype()} :=\n"
-                               f"   match xs__ with\n   | [] => {after}\n   | {pat} :: tl__ =>\n     {b}\n   end) {lst} {params})")
+                               f"((fix {lname} (xsR : list _) {params} {{struct xsR}} : {self.coq_rettype()} :=\n"
+                               f"   match xsR with\n   | [] => {after}\n   | {pat} :: tlR =>\n     {b}\n   end) {lst} {params})")
 
     def pattern(self, t):
         if isinstance(t, ast.Name):
